@@ -14,6 +14,8 @@ def _convert_expr(e, variables_dict):
     if isinstance(e, (BoolVar, IntVar)):
         return variables_dict[e.id]
     else:
+        if e.op == Op.BOOL_CONSTANT or e.op == Op.INT_CONSTANT:
+            return e.operands[0]
         operands = list(map(lambda x: _convert_expr(x, variables_dict), e.operands))
         if e.op == Op.NEG:
             return -operands[0]
@@ -54,6 +56,9 @@ def _convert_expr(e, variables_dict):
         elif e.op == Op.IF:
             return z3.If(operands[0], operands[1], operands[2])
         elif e.op == Op.ALLDIFF:
+            if not any(map(z3.is_expr, operands)):
+                # z3.Distinct needs at least one z3 term; all operands are constants here
+                return len(set(operands)) == len(operands)
             return z3.Distinct(operands)
 
 
